@@ -1253,13 +1253,42 @@ impl<'a> Gen<'a> {
         Node::leaf(format!("__log.push({});", e))
     }
 
+    /// Objects that live only in registers, loop variables or half-evaluated expressions while
+    /// later sub-expressions allocate: the shapes where a missing or shared register root bites.
+    fn regtemp_stmt(&mut self) -> Node {
+        self.tag("regtemp");
+        let a = self.fresh("ra");
+        let b = self.fresh("rb");
+        let c = self.fresh("rc");
+        let n = self.sync_num(0);
+        let m = 2 + self.rng.below(4);
+        let body = match self.rng.below(14) {
+            0 => format!("for (let {a}: any = {{ v: 0 }}, {b}: any = {{ v: {m} * 2 }}; {a}.v < {b}.v; {a} = {{ v: {a}.v + 1 }}, {b} = {{ v: {b}.v - 1 }}) {{ {c}.push({a}.v + \":\" + {b}.v); }}"),
+            1 => format!("for (let {a}: any = {{ n: 0 }}, {b}: any = {a}; {a} && {a}.n < {m}; {b} = {a}, {a} = {{ n: {a}.n + 1, p: [{b}] }}) {{ {c}.push({b}.n + \">\" + {a}.n); }}"),
+            2 => format!("let {a}: any = {{ v: {n} }}; let {b}: any = {{ v: 1, l: [{{}}] }}; for (let i = 0; i < {m}; i++) {{ [{a}, {b}] = [{b}, {{ v: {a}.v + i, was: [{a}] }}]; }} {c}.push({a}.v + \"/\" + {b}.v);"),
+            3 => format!("let {a}: any; let {b}: any; {a} = {b} = {{ v: {n}, l: [{{}}, {{}}] }}; {a} = {{ v: 1 }}; {c}.push(String({b}.v) + {b}.l.length + {a}.v);"),
+            4 => format!("let {a}: any; let {b}: any; const {a}r: any = ({a} = {{ v: {n} }}, {b} = {a}, {a} = {{ v: 2, l: [{{}}] }}, {b}); {c}.push(String({a}r.v) + {a}.v + {b}.v);"),
+            5 => format!("const {{ p: {{ q: {a} = {{ v: -1 }}, r: {b} = {{ v: -2, l: [{{}}] }} }} = {{ q: {{ v: 7 }} }} }}: any = {{ get p(): any {{ return {{ q: {{ v: {n}, l: [{{}}] }} }}; }} }}; {c}.push(String({a}.v) + {b}.v);"),
+            6 => format!("const {a}: any = [{{ v: {n} }}, [{{}}, {{}}].length, {{ w: [{{ v: 1 }}].map((o: any) => ({{ ...o }})) }}, {{ v: 2 }}]; {c}.push(String({a}[0].v) + {a}[1] + {a}[2].w[0].v + {a}[3].v);"),
+            7 => format!("const {a}: any = ((x: any, y: any, z: any) => String(x.v) + y.length + z.v)({{ v: {n} }}, [{{}}, {{}}, {{}}].map((o: any) => [o]), {{ v: [{{}}].length }}); {c}.push({a});"),
+            8 => format!("let {a}: any = {{ n: 0 }}; let {b}: any = null; while (({b} = {a}, {a} = {a}.n < {m} ? {{ n: {a}.n + 1, j: [{{}}] }} : null) !== null) {{ {c}.push({b}.n + \"~\" + {a}.n); }}"),
+            9 => format!("const {a}: any = ({n} > 1 ? {{ v: {n}, l: [{{}}] }} : {{ v: -1 }}) ?? {{ v: -2 }}; const {b}: any = (null ?? {{ v: [{{}}, {{}}].length }}) && {{ v: {a}.v, k: [{a}] }}; {c}.push(String({a}.v) + {b}.v);"),
+            10 => format!("let {a}: any = {{ v: {n} }}; let {b}: any = {a}; {a} = {{ v: 1, prev: [{{}}, {{}}] }}; const {a}2: any = {{ v: 2 }}; {c}.push(String({b}.v) + {a}.v + {a}2.v); {b} = {{ v: 3 }}; {c}.push(String({b}.v) + {a}.prev.length);"),
+            11 => format!("const {a}: any = `${{JSON.stringify({{ v: {n} }})}}-${{[{{}}, {{}}].length}}-${{JSON.stringify({{ w: [{{ v: 1 }}] }})}}`; {c}.push({a});"),
+            12 => format!("switch (true) {{ case ({{ v: {n} }} as any).v === -12345: {c}.push(\"never\"); break; case [{{}}, {{}}].length === 2: {{ const {a}: any = {{ v: {n} }}; const {b}: any = {a}; {c}.push(String({b}.v)); break; }} default: {c}.push(\"d\"); }}"),
+            _ => format!("let {a}: any = {{ v: 0, next: null }}; for (let i = 1, {b}: any = {a}; i < {m}; i++, {b} = {b}.next) {{ {b}.next = {{ v: i, next: null, j: [{{}}] }}; }} let {a}s: string = \"\"; for (let {b}: any = {a}; {b}; {b} = {b}.next) {{ {a}s += {b}.v; }} {c}.push({a}s);"),
+        };
+        Node::leaf(format!("{{ const {c}: string[] = []; {body} __log.push(\"rt:\" + {c}.join(\",\")); }}"))
+    }
+
     fn stmt(&mut self, depth: usize) -> Node {
         self.budget -= 1;
         let deep = depth < self.cfg.max_depth;
         for _ in 0..8 {
             let r = self.rng.below(100);
             match r {
-                0..=24 => return self.decl(2),
+                0..=22 => return self.decl(2),
+                23..=24 => return self.regtemp_stmt(),
                 25..=39 => {
                     if let Some(n) = self.mutate() {
                         return n;
